@@ -32,7 +32,7 @@ fn phase_ops(scale: usize, seed: u64) -> (u64, u64) {
         let periods: &[usize] = if kind.n_periods() == 0 {
             &[1]
         } else if scale >= 5 {
-            &[1, 2, 3, 5, 9, 16, 33, 64]
+            &[1, 2, 3, 5, 9, 16, 33, 64, 65, 130]
         } else {
             &[1, 2, 3, 5, 9]
         };
@@ -118,16 +118,36 @@ fn phase_threads(scale: usize, seed: u64, threads: usize) -> (u64, u64) {
                         std::thread::yield_now();
                     }
                 }
-                // hand an instance to another thread and back
-                let moved = insts.pop().unwrap();
-                let back = std::thread::spawn(move || {
-                    let mut m = moved;
-                    m.apply(&Op::NextBar(Bar::flat(5.0, 1.0)));
-                    m
+                // hand EVERY instance to a brand-new thread that has never constructed an indicator, use it
+                // there, clone it there, restore it from bytes there, and take it back
+                let moved: Vec<Inst> = insts.drain(..).collect();
+                let (back, hh, nn) = std::thread::spawn(move || {
+                    let mut hh = 0u64;
+                    let mut nn = 0u64;
+                    let mut out = Vec::new();
+                    for mut m in moved {
+                        let n = m.params.max_period();
+                        for i in 0..(2 * n + 3) {
+                            let b = Bar { o: 5.0, h: 6.0 + i as f64, l: 4.0, c: 5.0 + (i % 3) as f64, v: 1.0 + i as f64 };
+                            let r = if m.kind().has_scalar() && i % 2 == 0 { m.apply(&Op::NextF(b.c)) } else { m.apply(&Op::NextBar(b)) };
+                            mix(&mut hh, &r);
+                            nn += 1;
+                        }
+                        if let Ok(mut c) = m.try_clone() {
+                            mix(&mut hh, &c.apply(&Op::NextBar(Bar::flat(5.0, 1.0))));
+                        }
+                        mix(&mut hh, &m.apply(&Op::SerDeSwap));
+                        mix(&mut hh, &m.apply(&Op::NextBar(Bar::flat(7.0, 2.0))));
+                        nn += 3;
+                        out.push(m);
+                    }
+                    (out, hh, nn)
                 })
                 .join()
                 .unwrap();
-                insts.push(back);
+                drop(back);
+                h ^= hh;
+                n_ops += nn;
                 (h, n_ops)
             })
         })
